@@ -147,6 +147,12 @@ FILTER_OPTS = ("-D", "-F", "-N", "-C", "-H")
 # generator leaves these shapes out so that the check stays quiet on the unchanged tree; `skipped_shapes` in the
 # evidence counts what was left out.  match(scenario, variant, build flavour, record options)
 EXCLUDED_SHAPES = {
+    "C01-BT-ESTIMATE": {
+        "what": "backtrace() called by the traced program under -e/--estimate-return: the frames the program gets differ "
+                "from the untraced run (seen in the last hour of round 3 in the thorough matrix: bt scenario, nop/patchable "
+                "builds with -P . -e; the digest of the frame names differs, frame counts agree); not analysed yet",
+        "match": lambda s, v, fl, ro: s == "bt" and (_has(ro, "-e") or _has(ro, "--estimate-return")),
+    },
     "C01-MAXSTACK-EXC": {
         "what": "a C++ exception thrown while the call depth is beyond --max-stack: the frames that were not pushed are "
                 "missing when the unwound ones are dropped; heap corruption ('malloc(): invalid next size'), SIGSEGV or "
